@@ -55,7 +55,23 @@ def malformations(kind, case, rng):
     mk('y_with_missing_value', y=yn)
     ysh = y.copy(); ysh.index = [i + 5 for i in range(len(y))]
     mk('y_indexed_differently_from_X', y=ysh)
+    perm = list(range(len(y))); rng.shuffle(perm)
+    if perm != sorted(perm):
+        yp = y.copy(); yp.index = [y.index[i] for i in perm]
+        mk('y_index_same_labels_in_another_order', y=yp)
     mk('X_not_a_DataFrame', X=X.values)
+    if Xd is not None and 'Carver' in kind:
+        ydn = yd.astype(float).copy() if all(isinstance(v, (int, float, np.integer, np.floating)) for v in yd) else yd.astype(object).copy()
+        ydn.iloc[rng.randrange(len(yd))] = np.nan
+        mk('y_dev_with_missing_value', y_dev=ydn)
+        mk('y_dev_not_a_Series', y_dev=yd.tolist())
+        yds = yd.copy(); yds.index = [i + 3 for i in range(len(yd))]
+        mk('y_dev_indexed_differently_from_X_dev', y_dev=yds)
+        if kind == 'ContinuousCarver':
+            ys_ = yd.astype(object).copy(); ys_.iloc[0] = 'oops'; mk('continuous_dev_target_with_a_string', y_dev=ys_)
+        if kind == 'BinaryCarver':
+            y3 = yd.copy(); y3.iloc[0] = 2; mk('binary_dev_target_with_three_classes', y_dev=y3)
+            mk('binary_dev_target_constant', y_dev=pd.Series([1] * len(yd)))
     mk('y_not_a_Series', y=y.tolist())
     f_any = ob.features_of(case)[rng.randrange(len(ob.features_of(case)))]
     if kind == 'QuantitativeDiscretizer': f_any = case['quantitative'][0]
@@ -70,6 +86,8 @@ def malformations(kind, case, rng):
     if kind in ('BinaryCarver', 'ContinuousCarver', 'MulticlassCarver', 'Discretizer') and case['quantitative'] and (case['qualitative'] or case['ordinal']):
         q0 = case['quantitative'][0]
         mk('feature_both_quantitative_and_qualitative', ctor=dict(qualitative=list(case['qualitative']) + [q0]))
+        if kind != 'Discretizer' or True:
+            mk('feature_both_quantitative_and_ordinal', ctor=dict(ordinal=list(case['ordinal']) + [q0], values_orders=dict(case['values_orders'], **{q0: sorted(set(v for v in X[q0].tolist() if v == v))})))
     if case['quantitative'] and kind != 'QualitativeDiscretizer':
         q0 = case['quantitative'][0]; Xs = X.copy(); Xs[q0] = Xs[q0].astype(object); Xs.loc[Xs.index[pos], q0] = 'oops'
         mk('string_in_quantitative_feature', X=Xs)
